@@ -189,6 +189,87 @@ class _ReturnViaLocal(ast.NodeTransformer):
         return node
 
 
+class _HoistCallArgs(ast.NodeTransformer):
+    """`f(g(x), y)` as a whole statement (expression statement, plain assignment or return) becomes `a0_ = g(x); f(a0_, y)`:
+    positional arguments that are themselves calls are evaluated into locals first, left to right.  Only when the callee expression
+    is a plain name or an attribute chain on a name (its evaluation has no side effect) and no argument before the last hoisted one is
+    anything but a call, a name, an attribute or a constant (so the order of evaluation of the arguments is kept)."""
+
+    def __init__(self):
+        self.count = 0
+        self.k = 0
+
+    @staticmethod
+    def _pure_callee(f):
+        while isinstance(f, ast.Attribute):
+            f = f.value
+        return isinstance(f, ast.Name)
+
+    def _split(self, st, call):
+        if not isinstance(call, ast.Call) or not self._pure_callee(call.func) or call.keywords and any(k.arg is None for k in call.keywords):
+            return None
+        pre, new_args, seen_call = [], [], False
+        last_call = max([i for i, a in enumerate(call.args) if isinstance(a, ast.Call)], default=-1)
+        if last_call < 0:
+            return None
+        for i, a in enumerate(call.args):
+            if i <= last_call and not isinstance(a, (ast.Call, ast.Name, ast.Attribute, ast.Constant)):
+                return None
+            if isinstance(a, ast.Call) and not any(isinstance(x, (ast.Yield, ast.YieldFrom, ast.Await, ast.NamedExpr, ast.Starred)) for x in ast.walk(a)):
+                name = f'a{self.k}_'
+                self.k += 1
+                pre.append(ast.copy_location(ast.Assign(targets=[ast.Name(id=name, ctx=ast.Store())], value=a), st))
+                new_args.append(ast.copy_location(ast.Name(id=name, ctx=ast.Load()), a))
+            elif isinstance(a, ast.Call):
+                return None
+            else:
+                # a name evaluated before a later hoisted call could be rebound by that call only through nonlocal tricks: keep simple
+                new_args.append(a)
+        call.args = new_args
+        self.count += len(pre)
+        return pre
+
+    def _body(self, stmts):
+        out = []
+        for st in stmts:
+            st = self.visit(st)
+            pre = None
+            if isinstance(st, ast.Expr):
+                pre = self._split(st, st.value)
+            elif isinstance(st, ast.Assign) and len(st.targets) == 1 and isinstance(st.targets[0], ast.Name):
+                pre = self._split(st, st.value)
+            elif isinstance(st, ast.Return) and st.value is not None:
+                pre = self._split(st, st.value)
+            out.extend(pre or [])
+            out.append(st)
+        return out
+
+    def generic_visit(self, node):
+        for fld in ('body', 'orelse', 'finalbody'):
+            v = getattr(node, fld, None)
+            if isinstance(v, list) and v and isinstance(v[0], ast.stmt):
+                setattr(node, fld, self._body(v))
+        if isinstance(node, ast.Try):
+            for h in node.handlers:
+                h.body = self._body(h.body)
+        if isinstance(node, ast.Match):
+            for c in node.cases:
+                c.body = self._body(c.body)
+        return node
+
+    def visit_Lambda(self, node):
+        return node
+
+    def visit_ClassDef(self, node):
+        # class bodies: only the methods
+        node.body = [self.visit(x) if isinstance(x, (ast.FunctionDef, ast.AsyncFunctionDef, ast.ClassDef)) else x for x in node.body]
+        return node
+
+    def visit_Module(self, node):
+        node.body = [self.visit(x) if isinstance(x, (ast.FunctionDef, ast.AsyncFunctionDef, ast.ClassDef)) else x for x in node.body]
+        return node
+
+
 def apply(kind: str, root: str) -> int:
     total = 0
     for fp in _py_files(root):
@@ -199,6 +280,10 @@ def apply(kind: str, root: str) -> int:
             total += rename_locals_in(tree)
         elif kind == 'invert-branches':
             t = _Invert()
+            tree = t.visit(tree)
+            total += t.count
+        elif kind == 'hoist-call-args':
+            t = _HoistCallArgs()
             tree = t.visit(tree)
             total += t.count
         elif kind == 'return-via-local':
